@@ -479,8 +479,8 @@ func supervise(ctx *fw.Ctx, rep *fw.Report) {
 func crashClass(c *tcase) string {
 	lim := c.limit()
 	t := trigger(c, classifyStream(c.stream, limits{lim, lim}, c.Side == "server"))
-	if t == "wellformed" {
-		return c.TypeName
+	if t == "wellformed" || strings.HasPrefix(t, "either:") {
+		return c.TypeName // the frame is (or may be) delivered: the message matters
 	}
 	return t
 }
